@@ -421,16 +421,25 @@ def judge(ctx, cases, full_header, full_checker, spec_header=None, spec_checker=
     summary["spec_failures"], summary["model_mismatches"] = len(spec_fail), len(model_mis)
     # concrete counterexamples first (smallest description first), at most a few replays
     spec_fail.sort(key=lambda ic: len(json.dumps(cases[ic[0]]["json"], default=str)))
-    reported = 0
+    reported, unlisted = 0, 0
+    known_sigs = {k["sig"] for k in ctx.known}
     for i, code in spec_fail:
         c = cases[i]
-        rep = {"kind": "implementation-violates-specification", "case": c["json"], "code": code,
-               "meaning": [m for b, m in bits.items() if code & b]}
-        if ctx.failing_case(rep, (lambda r, c=c: signature_of(c)) if signature_of else None):
+        sig = signature_of(c) if signature_of else None
+        if sig is not None and sig in known_sigs:
+            ctx.failing_case({"kind": "known-finding", "case": c["json"]}, lambda r, sig=sig: sig)    # prints KNOWN-FINDING once
+            continue
+        unlisted += 1
+        if reported < 3:
+            rep = {"kind": "implementation-violates-specification", "case": c["json"], "code": code,
+                   "meaning": [m for b, m in bits.items() if code & b]}
+            ctx.failing_case(rep, None)
             reported += 1
-            if reported >= 3:
-                break
-    if model_mis and not spec_fail and not found_elsewhere:
+    # only failures that are not listed known findings count as found
+    summary["known_finding_cases"] = len(spec_fail) - unlisted
+    summary["spec_failures"] = unlisted
+    # (spec failures that are listed known findings do not excuse a broken correspondence)
+    if model_mis and reported == 0 and not found_elsewhere:
         model_mis.sort(key=lambda ic: len(json.dumps(cases[ic[0]]["json"], default=str)))
         i, code = model_mis[0]
         ctx.violation({"kind": "model-implementation-correspondence-broken", "case": cases[i]["json"], "code": code,
